@@ -211,6 +211,23 @@ def same_future_in_two_conditions(conn, a, c1, c2, flush_between):
     return arr, q
 
 
+def handle_read_by_host_then_changed_then_tested(conn, a, b, c):
+    """the Host reads a Future handle after a flush; a later subroutine changes the entry and then branches on THE SAME handle:
+    the branch sees the entry's current value (a + b), not what the Host read earlier"""
+    arr = conn.new_array(2, init_values=[a, 7])
+    x = arr.get_future_index(0)
+    conn.flush()
+    seen = int(x)
+    x.add(b)
+    q = Qubit(conn)
+    with x.if_eq(c):
+        q.X()
+    with x.if_lt(c):
+        q.Z()
+    conn.flush()
+    return seen, arr
+
+
 def arrays_on_both_sides_of_a_flush(conn, a, b):
     """arrays are allocated before AND after a flush; the earlier one is still used afterwards: distinct arrays stay distinct"""
     first = conn.new_array(2, init_values=[a, 1])
@@ -366,6 +383,14 @@ def epr_sequential_measure(conn, sock, role):
         sock.create_keep(number=2, sequential=True, post_routine=_noop_post)
     else:
         sock.recv_keep(number=2, sequential=True, post_routine=_noop_post)
+    conn.flush()
+
+
+def epr_keep_two(conn, sock, role):
+    """keep request for two pairs, all at once; both qubits are used afterwards"""
+    qs = sock.create_keep(number=2) if role == "create" else sock.recv_keep(number=2)
+    for q in qs:
+        q.H()
     conn.flush()
 
 
